@@ -472,10 +472,11 @@ class Ev:
         if self.depth >= self.MAXDEPTH:
             raise self.und("helper nesting too deep")
         params = [a.arg for a in fn.args.args]
-        if not params or params[0] != "self" or fn.args.vararg or fn.args.kwarg:
+        static = any(u(dec) == "staticmethod" for dec in fn.decorator_list)
+        if fn.args.vararg or fn.args.kwarg or (not static and (not params or params[0] not in ("self", "cls"))):
             raise self.und(f"signature of {fn.name}")
-        params = params[1:]
-        env: dict = {"self": Special("self")}
+        params = params if static else params[1:]
+        env: dict = {**MODS}
         defaults = fn.args.defaults
         for p, dflt in zip(params[len(params) - len(defaults):], defaults):
             env[p] = self.ev(dflt) if isinstance(dflt, ast.Constant) else Unknown("default")
@@ -498,7 +499,7 @@ class Ev:
         d = dotted(f) or ""
         nm = call_name(e)
         # methods of the class under analysis
-        if isinstance(f, ast.Attribute) and isinstance(f.value, ast.Name) and f.value.id == "self":
+        if isinstance(f, ast.Attribute) and isinstance(f.value, ast.Name) and (f.value.id == "self" or f.value.id in {c_.name for c_ in w.mro}):
             if nm == "_find_base_vertex" and not kwarg(e, "safeguarding") and len(e.args) == 1:
                 # the cell search is analysed on its own (R4); here it yields the symbolic base index of the symbolic query
                 a0 = self.ev(e.args[0])
